@@ -675,6 +675,7 @@ Definition prim_call (cls t : string) (args : list arg) (e : env) (s : state) : 
     else if seq t "strings.clear" then ASub "StringSpace" "clear"
     else if seq t "arrays.clear_base" then ASub "Arrays" "clear_base"
     else if seq t "reset_fields" then ADo (Done s)               (* FIELD buffers: not in the property *)
+    else if seq t "temp_values.clear" then ADo (Done s)          (* temporaries (fix D16): not modelled *)
     else unsup cls t
   else if seq cls "StringSpace" then
     if seq t "_strings.clear" then ADo (Done (s <| ss_strs := [] |>))
